@@ -7,6 +7,7 @@
 # Visit https://aboutcode.org and https://github.com/nexB/univers for support and download.
 
 import re
+from itertools import groupby
 from itertools import zip_longest
 from typing import Dict
 from typing import List
@@ -108,6 +109,30 @@ def vercmp(v1: str, v2: str) -> int:
             ret = rpmvercmp(r1, r2)
 
     return ret
+
+
+def hash_key(v: str) -> tuple:
+    """
+    Return a hashable key such that any two versions that vercmp() finds equal
+    have the same key. The pkgrel is not part of the key since vercmp() ignores
+    it when either version has none.
+    """
+
+    def get_type(c: str) -> int:
+        return 0 if c.isdigit() else 1 if c.isalpha() else 2
+
+    e, v = v.split(":", 1) if ":" in v else ("0", v)
+    if "-" in v:
+        v = v.rsplit("-", 1)[0]
+
+    key: List[tuple] = []
+    for string in (e, v):
+        for kind, group in groupby(string, key=get_type):
+            part = "".join(group)
+            # digits compare as integers, separators by length, letters as-is
+            key.append((kind, int(part) if kind == 0 else part if kind == 1 else len(part)))
+        key.append(())
+    return tuple(key)
 
 
 def extract_upstream_version(version: str) -> str:
